@@ -2,6 +2,11 @@ module verifsim
 
 go 1.23.0
 
+// crypto: ignore caller-supplied random readers (and the MaybeReadByte coin flip that comes
+// with them) so that testing/cryptotest.SetGlobalRandom makes all key generation, signing and
+// TLS handshakes a pure function of the run seed.
+godebug cryptocustomrand=0
+
 require (
 	github.com/anishathalye/porcupine v1.3.0
 	github.com/golang/snappy v0.0.3
